@@ -130,6 +130,24 @@ fn rand_record(r: &mut Rng, big: bool) -> SpanRecord {
     }
 }
 
+/// The copies of a multi-parent span (and of pushed local spans) are separate records with the same
+/// span id and different trace / parent ids: now and then a batch contains such groups.
+fn share_span_ids(r: &mut Rng, batch: &mut [SpanRecord]) -> bool {
+    if batch.len() < 2 || !r.chance(1, 4) {
+        return false;
+    }
+    let groups = 1 + r.below(3);
+    for _ in 0..groups {
+        let src = r.below(batch.len());
+        let id = batch[src].span_id;
+        for _ in 0..(1 + r.below(3)) {
+            let dst = r.below(batch.len());
+            batch[dst].span_id = id;
+        }
+    }
+    true
+}
+
 /// Now and then one record of a batch gets far more events and/or properties than any default
 /// limit of the target SDKs (128 events / attributes per span in OpenTelemetry): the property
 /// states that all of them are transmitted.
@@ -978,6 +996,9 @@ fn run_jaeger(st: &mut St, r: &mut Rng, n: usize, deadline: Instant) {
         };
         let big = r.chance(1, 4);
         let mut batch: Vec<SpanRecord> = (0..sz).map(|_| rand_record(r, big)).collect();
+        if share_span_ids(r, &mut batch) {
+            st.stat("batches_with_shared_span_ids", 1);
+        }
         if !big && swell(r, &mut batch, 300, 250) {
             st.stat("records_with_over_128_events_or_properties", 1);
         }
@@ -1222,6 +1243,9 @@ fn run_datadog(st: &mut St, r: &mut Rng, n: usize, deadline: Instant) {
         }
         let big = r.chance(1, 4) && sz < 5000;
         let mut batch: Vec<SpanRecord> = (0..sz).map(|_| rand_record(r, big)).collect();
+        if share_span_ids(r, &mut batch) {
+            st.stat("batches_with_shared_span_ids", 1);
+        }
         if swell(r, &mut batch, 400, 600) {
             st.stat("records_with_over_128_events_or_properties", 1);
         }
@@ -1442,6 +1466,9 @@ fn run_otel(st: &mut St, r: &mut Rng, n: usize, deadline: Instant) {
         }
         let big = r.chance(1, 4) && sz < 5000;
         let mut batch: Vec<SpanRecord> = (0..sz).map(|_| rand_record(r, big)).collect();
+        if share_span_ids(r, &mut batch) {
+            st.stat("batches_with_shared_span_ids", 1);
+        }
         if swell(r, &mut batch, 1500, 600) {
             st.stat("records_with_over_128_events_or_properties", 1);
         }
